@@ -1,9 +1,55 @@
 import UF.Driver.Decode
-/- Ops of work group G (see notes/AGENT_GUIDE.md). Return `none` for ops of other groups. -/
+import UF.Model.Mask
+import UF.Spec.Mask
+/- Ops of work group G (C03, see notes/AGENT_GUIDE.md). Return `none` for ops of other groups. -/
 namespace UF.Ops
+open UF.Mask UF.MaskSpec
+
+/-- `c03.p2r <pattern>`: model = text produced by `patternToRegexpText` (or PANIC). -/
+def opC03P2R (args : List W) : String :=
+  match args with
+  | [p] =>
+    match p.bytes? with
+    | some p =>
+      -- second column: the closed form `maskText` (only claimed for mask patterns that are not any-URL patterns)
+      (match patternToRegexpText p with
+       | some t => outBytes t
+       | none => "PANIC") ++ " " ++
+      (if isAnyPattern p || isRegexPattern p then "-" else outBytes (maskText p))
+    | none => "bad-decode"
+  | _ => "bad-arity"
+
+/-- `c03.acc <pattern as written> <pattern as stored in the rule> <matchCase> <subject>`:
+    model = `/*` rewrite + `preparePatternText` + regex parser + search; spec = `ruleAccepts`. -/
+def opC03Acc (args : List W) : String :=
+  match args with
+  | [p, stored, mc, u] =>
+    match p.bytes?, stored.bytes?, mc.bool?, u.bytes? with
+    | some p, some stored, some mc, some u =>
+      let spec := outBool (ruleAccepts p mc u)
+      let model :=
+        match rewriteSlashStar p with
+        | none => "PANIC"
+        | some s =>
+          if s != stored then "bad-rewrite" else
+          match preparePatternText s mc with
+          | .panic => "PANIC"
+          | .any => "T"
+          | .text t =>
+            match Re.parseRE t with
+            | some r =>
+              -- the parsed expression must be the expression the mask stands for (theorem B, re-checked per line)
+              if isRegexPattern s || r == maskAst (tokenize s) mc then outBool (r.search u) else "bad-ast"
+            | none => "F"
+      model ++ " " ++ spec
+    | _, _, _, _ => "bad-decode"
+  | _ => "bad-arity"
 
 def dispatchG (op : String) (args : List W) : Option String :=
-  match op, args with
-  | _, _ => none
+  match op with
+  | "c03.p2r" => some (opC03P2R args)
+  | "c03.p2rx" => some (opC03P2R args)
+  | "c03.acc" => some (opC03Acc args)
+  | _ => none
 
 end UF.Ops
